@@ -1,6 +1,6 @@
 //! qv - runtime-monitoring harness for Simmypeet/qbice (see /verif/DESIGN.md).
 #![allow(clippy::all)]
-#![allow(dead_code)]
+#![allow(dead_code, unused_imports)]
 
 pub mod c01;
 pub mod c02;
